@@ -61,7 +61,11 @@ def run(ctx, depth):
         ctx.evaluations += 1
         ctx.count("family:bytes")
         ctx.nontriv(c)
-        bad = c08.patch_monitor(o)
+        bad = []
+        if o.get("panic") or o.get("err") or o.get("bad_template"):
+            bad.append("getPatch failed on a valid template: %s" % (o.get("panic") or o.get("err") or o.get("bad_template")))
+        elif o["non_template_edits_changing_patch"]:
+            bad.append("revision data changed by non-template edits: %s" % o["non_template_edits_changing_patch"])
         if not o.get("same_as_builtin", False):
             bad.append("revision data differs from the built-in controller's bytes: %s vs %s" % (o.get("advanced", "")[:120], o.get("builtin", "")[:120]))
         if not o.get("same_after_from_builtin", True):
